@@ -1,7 +1,7 @@
 // c06_api.cpp, VF_PART == 2: unordered_set / unordered_map / unordered_multimap (and the _open variants)
 #if VF_PART == 2
 enum UKind { USET, UMAP, UMMAP };
-static bool g_f33Reported = false;	// the open finding F33 is reported once per executable run
+static bool g_f33Reported = false, g_f33RehashReported = false;	// the open finding F33 is reported once per executable run
 
 // what the standard guarantees about the bucket interface ([unord.req]); evaluated on momo AND on libstdc++ (the latter only
 // validates the oracle itself). Returns "" or the violated sentence.
@@ -89,6 +89,40 @@ struct UA {
 			}
 		}
 #undef VF_INS
+	}
+	// a mapped constructor that throws inside a piecewise emplace; an allocation fault during such an emplace (see c06_api.cpp OA)
+	static std::string insThrow(C& c, unsigned how, int k) {
+		if constexpr (isMap) {
+			try {
+				switch (how % 4) {
+				case 0: c.emplace(std::piecewise_construct, std::forward_as_tuple(k / 16, k % 16), std::forward_as_tuple(777, 1)); break;
+				case 1: c.emplace_hint(c.cbegin(), std::piecewise_construct, std::forward_as_tuple(k / 16, k % 16), std::forward_as_tuple(777, 1)); break;
+				case 2: c.emplace(std::piecewise_construct, std::forward_as_tuple(CKey(k)), std::forward_as_tuple(777, 2)); break;
+				default: { if constexpr (kind == UMAP) { CKey key(k); c.try_emplace(std::move(key), 777, 3); } else c.emplace(std::piecewise_construct, std::forward_as_tuple(k), std::forward_as_tuple(777, 3)); break; }
+				}
+				return "no exception";
+			}
+			catch (const std::runtime_error&) { return "E:user"; }
+		} else return "";
+	}
+	static bool insAllocFail(C& c, unsigned how, int k, int v, long countdown) {
+		ledger().failCountdown = countdown; ledger().fired = false;
+		bool threw = false;
+		try {
+			if constexpr (isMap) {
+				switch (how % 3) {
+				case 0: c.emplace(std::piecewise_construct, std::forward_as_tuple(k / 16, k % 16), std::forward_as_tuple(v / 1000, v % 1000)); break;
+				case 1: c.emplace_hint(c.cend(), std::piecewise_construct, std::forward_as_tuple(k / 16, k % 16), std::forward_as_tuple(v / 1000, v % 1000)); break;
+				default: c.emplace(std::piecewise_construct, std::forward_as_tuple(k), std::forward_as_tuple(v)); break;
+				}
+			} else {
+				if (how % 2) c.emplace(k / 16, k % 16); else c.emplace_hint(c.cbegin(), k / 16, k % 16);
+			}
+		}
+		catch (const std::bad_alloc&) { threw = true; }
+		catch (const std::runtime_error&) { threw = true; }	// "Hash table is full": no room left to overload (see the caller)
+		ledger().failCountdown = -1;	// (ledger().fired stays: the caller wants to know whether the fault was reached)
+		return threw;
 	}
 	static std::string tryE(C& c, unsigned how, int k, int v) {
 		if constexpr (kind == UMAP) {
@@ -418,7 +452,34 @@ static void runUnorderedApi(Ctx& c, Rng& rng, const char* kindName, unsigned run
 				}
 				else if (op < 82) { auto ys = someItems(3); OM::insertList(m, ys); OS::insertList(st, ys); R.step(fmt("insl %s %s", cn, pairsStr(ys).c_str()), OM::state(m), OS::state(st)); }
 				else if (op < 84) { auto ys = someItems(3); OM::assignList(m, ys); OS::assignList(st, ys); R.step(fmt("asl %s %s", cn, pairsStr(ys).c_str()), OM::state(m), OS::state(st)); }
-				else if (op < 85) { m.clear(); st.clear(); R.step(fmt("clear %s", cn), OM::state(m), OS::state(st)); }
+				else if (op < 85) {
+					unsigned how = (unsigned)rng.below(12);
+					if (rng.chance(1, 3)) { m.clear(); st.clear(); R.step(fmt("clear %s", cn), OM::state(m), OS::state(st)); }
+					// (a key that is absent: whether the mapped object is constructed at all for a present key is unspecified - libstdc++ does, momo does not)
+					else if (kind != USET && rng.chance(1, 2)) { int fk = freshKey++; c.stats.count("api.emplace_mapped_ctor_throws"); R.step(fmt("insthrow%u %s %d", how % 4, cn, fk), OM::insThrow(m, how, fk), OS::insThrow(st, how, fk)); }
+					else {
+						// the table allocates only when it grows: fresh keys are emplaced with the NEXT allocation failing until one call throws
+						for (unsigned attempt = 0; attempt < 48 && !R.diverged; ++attempt) {
+							int fk = freshKey++;
+							std::string before = OM::state(m);
+							bool threw = OM::insAllocFail(m, how, fk, v, 0);
+							bool faultReached = ledger().fired;
+							std::string opn = fmt("insallocfail%u %s %d %d", how % 3, cn, fk, v);
+							R.note(opn, threw ? "E:bad_alloc" : "inserted");
+							c.stats.count(threw ? "api.emplace_alloc_fault_thrown" : "api.emplace_alloc_fault_not_reached");
+							if (threw) { R.inv(OM::state(m) == before, opn, "bad_alloc from emplace changed the container: " + before + " -> " + OM::state(m)); break; }
+							OS::insAllocFail(st, how, fk, v, -1);
+							// the fault fired but the call succeeded: the table was overloaded instead of grown (HashSetSettings::overloadIfCannotGrow) - once is enough
+							// and is grown at once by one ordinary insertion, so that the load-factor statements of [unord.req] hold again
+							if (faultReached) {
+								c.stats.count("api.emplace_alloc_fault_overloaded_instead");
+								int gk = freshKey++;
+								R.step(fmt("ins1 %s %d %d (growing the overloaded table)", cn, gk, 0), OM::ins(m, 1, false, false, gk, 0), OS::ins(st, 1, false, false, gk, 0));
+								break;
+							}
+						}
+					}
+				}
 				else {
 					if constexpr (kind != UMMAP) {
 						// ---- bucket interface, load factors, rehash / reserve (documented as not implemented for unordered_multimap)
@@ -436,7 +497,14 @@ static void runUnorderedApi(Ctx& c, Rng& rng, const char* kindName, unsigned run
 							std::string opn = fmt("rehash %s %zu", cn, bn);
 							m.rehash(bn); st.rehash(bn);
 							R.note(opn, fmt("bc=%zu", (size_t)m.bucket_count()));
-							R.inv(m.bucket_count() >= bn, opn, fmt("after rehash(%zu) bucket_count() = %zu < n", bn, (size_t)m.bucket_count()));
+							if (m.bucket_count() == 0 && m.empty() && bn > 0) {
+								// open finding F33, second entry point: a container without bucket array (it never held an element);
+								// rehash(n) with floor(2^k * max_load_factor()) == 0
+								// (n <= 2 with z = 0.25, ...) calls Reserve(0), which allocates nothing: bucket_count() stays 0 < n
+								c.stats.count("api.rehash_bucket_count_zero");
+								if (!g_f33RehashReported) { g_f33RehashReported = true; c.fail("C06 api/%s known-F33 rehash-bucket-count-zero: empty container without bucket array, max_load_factor() = %g: after rehash(%zu) bucket_count() = 0 < n (std: bucket_count() >= n; libstdc++ %zu)", tag.c_str(), (double)m.max_load_factor(), bn, (size_t)st.bucket_count()); }
+							}
+							else R.inv(m.bucket_count() >= bn, opn, fmt("after rehash(%zu) bucket_count() = %zu < n", bn, (size_t)m.bucket_count()));
 							R.inv((float)m.size() <= m.max_load_factor() * (float)m.bucket_count() * 1.0001f, opn, fmt("after rehash(%zu) bucket_count() %zu < size() %zu / max_load_factor() %g", bn, (size_t)m.bucket_count(), (size_t)m.size(), (double)m.max_load_factor()));
 							std::string a = bucketInvariants(m, typename OM::GetP()); R.inv(a.empty(), opn, a);
 						}
@@ -455,7 +523,8 @@ static void runUnorderedApi(Ctx& c, Rng& rng, const char* kindName, unsigned run
 								if (m.bucket_count() != bc0) changed = true;
 								if (st.bucket_count() != sbc0) schanged = true;
 							}
-							if (schanged) R.inv(false, opn, "ORACLE: libstdc++ itself rehashed below the reserved size");
+							// (libstdc++ itself sometimes re-buckets here for tiny tables with a fractional load factor: counted, not judged)
+							if (schanged) c.stats.count("api.reserve_then_fill_libstdcxx_rebucketed");
 							R.inv(!changed, opn, fmt("bucket_count() changed from %zu to %zu while size() <= reserved %zu (a rehash)", bc0, (size_t)m.bucket_count(), want));
 							c.stats.count("api.reserve_then_fill");
 						}
